@@ -606,6 +606,11 @@ class Interp:
             if isinstance(b, (list, tuple)):
                 b = A.array_from_nested(b)
             return A.elementwise(lambda x, y: compare(o, x, y), a, b, name=o, kind="bool")
+        if o in ("==", "!="):
+            for x, y in ((a, b), (b, a)):
+                if isinstance(x, Instance) and callable(x.attrs.get("__eq__")):
+                    r = x.attrs["__eq__"](y)
+                    return r if o == "==" else logical_not(self.truth(r))
         if isinstance(a, Instance) and a.cls is not None and o in ("==", "!="):
             m, _ = a.cls.lookup("__eq__")
             if m is not None:
